@@ -647,6 +647,42 @@ def opPick (j : Json) : R Json := do
     | _ => throw "pick = [candidates, choice]"
   pure (Json.mkObj [("ok", Json.arr res.toArray)])
 
+open Edxml.Transcode in
+partial def rvalOf (j : Json) : R RVal :=
+  match j with
+  | Json.null => pure .null
+  | Json.bool b => pure (.bool b)
+  | Json.str s => pure (.str s)
+  | Json.num n => if n.exponent == 0 then pure (.int n.mantissa) else throw "record values: integers only"
+  | Json.arr a => do pure (.list (← a.toList.mapM rvalOf))
+  | Json.obj kv => do pure (.obj (← (kv.toList.map fun (k, v) => (k, v)).mapM fun (k, v) => do pure (k, ← rvalOf v)))
+
+open Edxml.Transcode in
+partial def rvalJson (v : RVal) : Json :=
+  match v with
+  | .null => Json.null
+  | .bool b => Json.bool b
+  | .int n => Json.num (JsonNumber.fromInt n)
+  | .str s => Json.str s
+  | .list l => Json.arr (l.map rvalJson).toArray
+  | .obj kv => Json.mkObj (kv.map fun (k, x) => (k, rvalJson x))
+
+open Edxml.Transcode in
+/-- `ObjectTranscoder.generate`: the property dictionary a record gives under a property map. The record's keys are given
+as a list of pairs (insertion order is immaterial for lookups, but duplicate-free). -/
+def opLookup (j : Json) : R Json := do
+  let pairsOf (x : Json) : R RVal := do
+    -- top level record as [[key, value], ...]
+    pure (.obj (← (← arr x).mapM fun kv => do
+      match ← arr kv with
+      | [k, v] => pure ((← str k), (← rvalOf v))
+      | _ => throw "record = [[key, value], ...]"))
+  let recv ← pairsOf (← fld j "record")
+  let pmap ← (← fldArr j "map").mapM fun e => do
+    pure ({ selector := ← fldStr e "selector", props := ← fldStrs e "props", empty := ← (← fldArr e "empty").mapM rvalOf } : MapEntry)
+  let ps := generateProps recv pmap
+  pure (Json.mkObj [("props", Json.arr (ps.map fun (p, vs) => jPair (Json.str p) (Json.arr (vs.map rvalJson).toArray)).toArray)])
+
 def opMediator (j : Json) : R Json := do
   let ig ← fldBool j "ignoreInvalid"
   let ops ← (← fldArr j "ops").mapM fun o => do
@@ -776,6 +812,7 @@ def dispatch (j : Json) : R Json := do
   | "search" => opSearch j
   | "pick" => opPick j
   | "mediator" => opMediator j
+  | "lookup" => opLookup j
   | "template" => opTemplate j
   | x => throw s!"unknown op {x}"
 
